@@ -41,19 +41,21 @@ def compare(df0, df1, a):
 def one(sh, case, driver='generated'):
     a = case['a']
     c = case['c']
-    base, e0 = pipeline.call(case)
+    # a script that writes its options once passes the SAME dictionaries to the base and to the transformed analyses
+    shared = pipeline.fresh_options(case) if case.get('share_options') else None
+    base, e0 = pipeline.call(case, shared=shared)
     sign0 = None
     r = monitors.REC.get('filter')
     if r is not None:
         sign0 = (r['out'] > 0)
     scaled = dict(case, sig=np.asarray(case['sig']) * a)
-    dfa, ea = pipeline.call(scaled)
+    dfa, ea = pipeline.call(scaled, shared=shared)
     r = monitors.REC.get('filter')
     if r is not None and sign0 is not None and len(sign0) == len(r['out']):
         sh.note('same_sign_sequence_of_bandpassed_signal' if np.array_equal(sign0, r['out'] > 0)
                 else 'different_sign_sequence')
     rate = dict(case, fs=case['fs'] * c, f_range=(case['f_range'][0] * c, case['f_range'][1] * c))
-    dfc, ec = pipeline.call(rate)
+    dfc, ec = pipeline.call(rate, shared=shared)
     others = attach.take_violations()
     vs = [v for v in others if v['property'] == '_monitor']
     nt = False
@@ -82,6 +84,7 @@ def one(sh, case, driver='generated'):
     k2 = int(round(math.log2(a)))
     sh.note('a=2^[%s]' % ('<-26' if k2 < -26 else '-26..-11' if k2 < -10 else '-10..10' if k2 <= 10 else '11..26' if k2 <= 26 else '>26'))
     sh.note('c=%g' % c)
+    sh.note('options=%s' % ('shared_objects' if shared is not None else 'fresh_copies'))
     sh.case_done(case, nt, sample=pipeline.sample_of(case))
 
 
@@ -92,6 +95,7 @@ def run(sh):
         case = gen.gen_pipeline_case(rng)
         case['a'] = 2.0 ** float(rng.integers(-10, 11) if rng.random() < 0.5 else rng.integers(-60, 61))
         case['c'] = float(rng.choice([.25, .5, 2., 4.]))
+        case['share_options'] = bool(rng.random() < 0.5)
         # filter length in cycles; durations in seconds are not part of the rate statement
         fek = case.get('find_extrema_kwargs')
         if fek and 'n_seconds' in (fek.get('filter_kwargs') or {}):
